@@ -19,16 +19,16 @@ def tv(ref, text, note=NOTE_TV, technique=TECH_TV, level=TV):
 
 CHECKS = {
     "C01": tv("DESIGN.md 4 C01", "The real task constructors and SchedulingSolver.initialize() are executed on z3-term parameters; for every symbolic path the assertion set actually handed to z3 is proved (unsat of the negation) to imply each timing clause for ALL parameter values and ALL admitted schedules, per task kind, optional flag, release/due/horizon combination, next to every other element kind and under several solver configurations; the same obligations are re-decided on unpatched builds at concrete parameter points. Counterexamples are replayed through the public API before being reported."),
-    "C02": tv("DESIGN.md 4 C02", "Real add_required_resource / SelectWorkers / CumulativeWorker / initialize() executed symbolically; capacity is proved at a symbolic instant (free variable = all instants) for workers and cumulative workers, busy spans for static/delayed/dynamic assignments, selection counts for every kind and count, and the work-amount inequality with symbolic productivities; all for every admitted schedule and selection within the shape bounds."),
+    "C02": tv("DESIGN.md 4 C02", "Real add_required_resource / SelectWorkers / CumulativeWorker / initialize() executed symbolically; capacity is proved at a symbolic instant (free variable = all instants) for workers and cumulative workers, busy spans for static/delayed/dynamic assignments, selection counts for every kind and count, and the work-amount inequality with symbolic productivities; a cumulative worker listed as an alternative of several selections keeps its capacity; a worker required twice by one task (three forms) is rejected or every requirement holds; all for every admitted schedule and selection within the shape bounds."),
     "C03": tv("DESIGN.md 4 C03", "Every task-constraint class is declared through the real API with symbolic values/offsets/interval bounds on every mix of task kinds and optional flags (also as optional constraint, with a horizon, and with the solver object created before the constraint); each documented relation is proved for all admitted schedules under the scheduled/applied guards."),
     "C04": tv("DESIGN.md 4 C04", "Every resource-constraint class is declared through the real API on a plain worker, a worker reached through a selection and a cumulative worker, with symbolic interval bounds, workload bounds, distances, offsets and activity windows; periodic rules are proved for a symbolic period index; all for every admitted schedule and selection."),
-    "C05": tv("DESIGN.md 4 C05", "Completeness: for every task constraint, resource constraint (on a plain worker), selection, cumulative worker, buffer (incl. two buffers sharing tasks) and single task, the quantified query 'S_valid(p, x) and forall aux. not phi_real(p, x, aux)' is shown unsat for symbolic parameters p and schedule x: every schedule valid beyond dispute is admitted by the constraint system the real code generates, also when an optional task named by the constraint is left unscheduled. Counterexamples are replayed: the real solver must reject the pinned valid schedule.",
+    "C05": tv("DESIGN.md 4 C05", "Completeness: for every task constraint, resource constraint (on a plain worker), selection, cumulative worker, buffer (incl. two buffers sharing tasks) and single task, the quantified query 'S_valid(p, x) and forall aux. not phi_real(p, x, aux)' is shown unsat for symbolic parameters p and schedule x: every schedule valid beyond dispute is admitted by the constraint system the real code generates, also when an optional task named by the constraint is left unscheduled. Families added from findings: indicators/objectives never exclude a schedule; order-based rules with equal dates (zero-length tasks); a cumulative worker inside selection lists; a task unloading and loading one buffer; and, on a concrete small problem, class-generic twin builds over all constraint classes: declaring a rule twice loses no schedule, two different rules do not interfere (the composition argument, checked pair by pair). Counterexamples are replayed: the real solver must reject the pinned valid schedule.",
               technique="symbolic execution of the real encoder + quantified SMT queries (forall-auxiliaries, qe2/MBQI, explicit array/function witnesses) against S_valid, counterexample replay"),
     "C06": tv("DESIGN.md 4 C06", "Deletion equivalence: the problem with optional task T restricted to 'T unscheduled' and the same problem built without T (both by the real API in one symbolic run) admit the same schedules over all shared observables - two quantified halves per embedding context (resources, selections, cumulative, buffers, indicators/objectives, every two-task constraint, groups, counting, resource rules); scheduled optional tasks obey the C01 clauses; force/condition/dependency/count rules are sound and complete for every decision subset.",
               technique="symbolic execution of the real encoder + quantified SMT equivalence queries between two real builds, counterexample replay on both problems"),
-    "C08": tv("DESIGN.md 4 C08", "For every indicator / objective-created indicator the real constructors are executed symbolically and phi_real => value == definition(schedule) is proved (within one unit for the utilisation ratio and the halved linear cost), over symbolic due dates, priorities, cost coefficients, bounds and all admitted schedules incl. unscheduled optional tasks and alternative assignments; indicator targets/bounds incl. value 0."),
+    "C08": tv("DESIGN.md 4 C08", "For every indicator / objective-created indicator the real constructors are executed symbolically and phi_real => value == definition(schedule) is proved (within one unit for the utilisation ratio and the halved linear cost), over symbolic due dates, priorities, cost coefficients, bounds and all admitted schedules incl. unscheduled optional tasks and alternative assignments; indicator targets/bounds incl. value 0 and optional ones; idle time with zero-length / optional / selected / single tasks; number of tasks and utilisation of a cumulative worker; polynomial cost functions with concrete coefficients."),
     "C09": tv("DESIGN.md 4 C09", "The buffer section of the real initialize() is executed with symbolic quantities/levels/bounds; level after every change instant == initial + signed quantities of accesses up to that instant, sortedness and coverage of change times, final level, bounds on every level, distinct instants for non-concurrent buffers, ties admitted for concurrent ones; 1-4 accesses, one or two buffers."),
-    "C10": tv("DESIGN.md 4 C10", "Every listed formula (depth <= 2, thorough 3) over the six connectives with raw Boolean atoms and built-in constraints as operands is declared through the real API; phi_real is proved equivalent to base rules AND connective(meanings): soundness plus the quantified completeness half, which also shows operands are not enforced on their own; optional formulas/constraints and force-apply-N counts likewise; user expressions verbatim.",
+    "C10": tv("DESIGN.md 4 C10", "Every listed formula (depth <= 2, thorough 3) over the six connectives with raw Boolean atoms and built-in constraints as operands is declared through the real API; phi_real is proved equivalent to base rules AND connective(meanings): soundness plus the quantified completeness half, which also shows operands are not enforced on their own; optional formulas/constraints and force-apply-N counts likewise; user expressions verbatim. Class-generic twin builds over all 33-35 constraint classes: an optional constraint may be left unapplied, optional + forced equals mandatory, a constraint as operand of And/Or/Implies/IfThenElse in positive position equals its plain declaration; operands with auxiliary variables in negative position are a recorded known finding.",
               technique="symbolic execution of the real encoder + SMT equivalence (validity + quantified completeness) against the connective semantics, counterexample replay"),
     "C14": tv("DESIGN.md 4 C14", "Twins of one parametric problem are built by the real API in one symbolic run: canonical vs renamed (adversarial name pools), vs every permutation of each declaration stage, vs the same problem built after other problems were built/solved; the two assertion sets are proved to admit the same schedules over role-matched observables (two quantified halves), and z3's global parameters are compared for the history twins.",
               technique="symbolic execution of two real builds + quantified SMT equivalence between them, counterexample replay on both builds"),
@@ -48,11 +48,11 @@ CHECKS = {
               level=MC, technique="symbolic execution of the real build_solution on an identity model stub + SMT validity queries under phi_real; real-z3 models as trace validation",
               note="Model stub contract: any model of phi_real; datetime arithmetic modelled as exact integer multiples; bounded shapes (3 tasks, workers, selection, cumulative, buffer, indicator)."),
     "C15": tv("DESIGN.md 4 C15", "For every configuration (optimizer x priority x parallel x random_values x debug x logics; quick: singles, pairs, some triples; thorough: full product) the real solver is constructed and initialised next to a default-configuration solver on the same parametric problem; the two assertion sets are proved equivalent as constraint systems (two quantified halves, debug under all tracking literals) and the objective wiring is compared with the declaration. z3's own behaviour under an option is trusted and exercised by a concrete layer (real z3, 3 instances x 11 configurations: verdicts, validity, optimum)."),
-    "C16": tv("DESIGN.md 4 C16", "PARTLY APPLICABLE. Solver-decided: the SMT-LIB text written by the real export_to_smt2 (both optimisers, before/after a solve) is parsed back and proved equivalent to the system captured at solve()'s first check(); to_df() and the Excel exporter run on a symbolic solution with recording DataFrame/Workbook and every cell is proved equal to the reported field (columns start+1..max(start+1,end), nothing for unscheduled tasks, indicator values). Not solver-decided (compiled serialisers): byte-level JSON/CSV/XLSX and JSON round trips of task and cost-function definitions are only exercised by six concrete round trips with the real libraries.",
+    "C16": tv("DESIGN.md 4 C16", "PARTLY APPLICABLE. Solver-decided: the SMT-LIB text written by the real export_to_smt2 (both optimisers, before/after a solve) is parsed back and proved equivalent to the system captured at solve()'s first check(); to_df() and the Excel exporter run on a symbolic solution with recording DataFrame/Workbook and every cell is proved equal to the reported field (columns start+1..max(start+1,end), nothing for unscheduled tasks, indicator values). Not solver-decided (compiled serialisers): byte-level JSON/CSV/XLSX and JSON round trips of task and cost-function definitions are only exercised by concrete round trips with the real libraries (six hand-written ones plus grids of about 1400 task definitions and 70 cost functions with every field at 0 / None / boundary values). The SMT-LIB export is additionally compared with the solver's own assertions, class by class, for 60 element classes with the real z3.",
               note="z3's printer/parser pair, pandas and xlsxwriter storing what they are given are trusted; byte-level serialisers are outside symbolic reach (trace validation only)."),
     "C17": tv("DESIGN.md 4 C17", "The real render_gantt_matplotlib runs on a solution with symbolic (integral real) times against a recording pyplot/axes; z3 proves that bars and reported items correspond one to one on the row whose tick label is the item's resource/task, span (start, end-start) or are a marker centred on the instant for zero length, that the task view draws scheduled tasks only, and that buffer curves are the reported step functions. A concrete layer renders every layout with the real Agg backend once and twice in a row and inspects the artists.",
               note="matplotlib trusted (recorder contract: it draws what it is asked to); floats as exact rationals; concrete horizon; plotly outside the claim."),
-    "C18": tv("DESIGN.md 4 C18", "Q-region per integer parameter: accepted region of the real constructor (field constraints read from the class at run time AND non-raising paths of the symbolically executed constructor body) XOR the well-formed region of the property is shown unsat over all integers; every parameter is also run at boundary values on the unpatched constructors (ties the metadata to pydantic-core); finite class-level rules (optional-task rules on mandatory tasks, force-apply over mandatory constraints, resource constraints on unassigned resources, elements without a problem, duplicate names per registry over all equality patterns of three names) are executed on both sides."),
+    "C18": tv("DESIGN.md 4 C18", "Q-region per integer parameter: accepted region of the real constructor (field constraints read from the class at run time AND non-raising paths of the symbolically executed constructor body) XOR the well-formed region of the property is shown unsat over all integers; every parameter is also run at boundary values on the unpatched constructors (ties the metadata to pydantic-core); finite class-level rules (optional-task rules on mandatory tasks, force-apply over mandatory constraints, resource constraints on unassigned resources, elements without a problem, duplicate names per registry over all equality patterns of three names, a worker required twice by a task in every form, measurements and resource rules on resources with 1-3 tasks) are executed on both sides; an acceptance sweep creates every public element class with its required arguments only and then with each optional argument."),
 }
 
 NOT_APPLICABLE = {}
